@@ -94,6 +94,7 @@ def run(repo, rep, tier):
     r1 = rep.rule('C11.R1', 'validate before the first write')
     r2 = rep.rule('C11.R2', 'batch APIs roll back or validate the whole '
                   'batch first')
+    write_loops_are_duplicate_free(repo, rep)
     res = Resolver(repo)
     ea = EscapeAnalysis(repo, res, model_none=False)
     funcs = []
@@ -385,3 +386,84 @@ def _succ_closure(cfg, n):
         seen.add(x)
         st.extend(cfg.succ[x])
     return seen
+
+
+def write_loops_are_duplicate_free(repo, rep):
+    """C11.R3: a loop that deletes / creates one store entry per element of
+    a collection must iterate a duplicate-free collection.  The second
+    delete of the same entry is refused by the store (KeyError) after the
+    first one already removed it: the operation raises although the
+    repository was changed.  The collection comes from a helper; the helper
+    must build it as a set (and return the set or list(set))."""
+    r3 = rep.rule('C11.R3', 'collections driving per-element store writes '
+                  'are duplicate-free')
+    IWPF = 'pywbem_mock/_instancewriteprovider.py'
+    cls = repo.cls(IWPF, 'InstanceWriteProvider')
+
+    def set_built(f):
+        """every return of f is a set variable or list()/sorted() of one"""
+        sets = set()
+        for n in walk_no_nested(f.node):
+            if isinstance(n, ast.Assign) and \
+                    isinstance(n.targets[0], ast.Name) and (
+                        (isinstance(n.value, ast.Call) and
+                         dotted(n.value.func) in ('set', 'frozenset')) or
+                        isinstance(n.value, (ast.Set, ast.SetComp))):
+                sets.add(n.targets[0].id)
+        rets = [r for r in walk_no_nested(f.node)
+                if isinstance(r, ast.Return) and r.value is not None]
+        if not rets:
+            return False
+        for r in rets:
+            v = r.value
+            if isinstance(v, ast.Call) and dotted(v.func) in (
+                    'list', 'sorted', 'tuple') and v.args:
+                v = v.args[0]
+            if isinstance(v, ast.Name) and v.id in sets:
+                continue
+            if isinstance(v, (ast.Set, ast.SetComp)):
+                continue
+            if isinstance(v, ast.Call) and dotted(v.func) in ('set',
+                                                              'frozenset'):
+                continue
+            if isinstance(v, (ast.List, ast.Tuple)) and not v.elts:
+                continue
+            return False
+        return True
+    for f in cls.methods.values():
+        for lp in walk_no_nested(f.node):
+            if not (isinstance(lp, ast.For) and isinstance(lp.iter, ast.Name)):
+                continue
+            writes_ = [c for c in ast.walk(lp) if isinstance(c, ast.Call) and
+                       isinstance(c.func, ast.Attribute) and
+                       c.func.attr in ('delete', 'create') and
+                       norm(c.func.value).endswith('_store')]
+            if not writes_:
+                continue
+            src = [n.value for n in walk_no_nested(f.node)
+                   if isinstance(n, ast.Assign) and
+                   norm(n.targets[0]) == lp.iter.id]
+            helpers = [cls.find_method((dotted(v.func) or '')[5:])
+                       for v in src if isinstance(v, ast.Call) and
+                       (dotted(v.func) or '').startswith('self.')]
+            if not helpers or any(h is None for h in helpers):
+                continue
+            r3.sites += 1
+            r3.functions.add(f.fq)
+            ok = all(set_built(h) for h in helpers)
+            r3.ob(ok, '%s|for %s' % (f.qualname, lp.iter.id),
+                  {'helpers': [h.qualname for h in helpers]})
+            if not ok:
+                rep.finding(r3, f.qualname, 'for %s in %s' % (
+                    norm(lp.target), lp.iter.id), 'duplicates-possible',
+                    IWPF, lp.lineno,
+                    'one store entry is written per element of %s, which '
+                    'comes from %s; that helper does not build its result '
+                    'as a set, so a value can occur twice (two reference '
+                    'properties into the same namespace): the second '
+                    'delete of the same entry is refused after the first '
+                    'one removed it - the operation raises but the '
+                    'repository has changed'
+                    % (lp.iter.id, ', '.join(h.qualname for h in helpers)))
+    if r3.sites < 1:
+        raise AnalysisError('C11.R3: no per-element store write loop found')
